@@ -179,6 +179,53 @@ def _inline_helper(ctx, node):
     return node
 
 
+def _cursor_aliases(mod, call):
+    """Locals that provably equal a cursor field at the construction: `self.A = [x, y]` earlier in the same block with no store
+    to x, y or self.A in between makes x == self.A[0] and y == self.A[1]."""
+    chain = enclosing_stmt_chain(mod, call)
+    out = {}
+    if not chain:
+        return out
+    stmt = chain[0]
+    par = mod.parents.get(id(stmt))
+    for field in ('body', 'orelse', 'finalbody'):
+        blk = getattr(par, field, None)
+        if not (isinstance(blk, list) and stmt in blk):
+            continue
+        before = blk[:blk.index(stmt)]
+        for i, st in enumerate(before):
+            if not (isinstance(st, ast.Assign) and len(st.targets) == 1 and isinstance(st.targets[0], ast.Attribute)
+                    and isinstance(st.value, (ast.List, ast.Tuple)) and U(st.targets[0]).startswith('self.')):
+                continue
+            later = before[i + 1:]
+            killed = set()
+            for l2 in later:
+                for n in ast.walk(l2):
+                    if isinstance(n, ast.Name) and isinstance(n.ctx, ast.Store):
+                        killed.add(n.id)
+                    if isinstance(n, ast.Attribute) and isinstance(n.ctx, ast.Store):
+                        killed.add(U(n))
+                    if isinstance(n, ast.Subscript) and isinstance(n.ctx, ast.Store):
+                        killed.add(U(n.value))
+            if U(st.targets[0]) in killed:
+                continue
+            for k, e in enumerate(st.value.elts):
+                if isinstance(e, ast.Name) and e.id not in killed:
+                    out[e.id] = '%s[%d]' % (U(st.targets[0]), k)
+    return out
+
+
+def _subst_names(node, table):
+    import copy
+
+    class T(ast.NodeTransformer):
+        def visit_Name(self, n):
+            if isinstance(n.ctx, ast.Load) and n.id in table:
+                return ast.parse(table[n.id], mode='eval').body
+            return n
+    return T().visit(copy.deepcopy(node))
+
+
 def r3_sibling_constructions(ctx, rule):
     sites = []
     for q, fn in ctx.repo.all_funcs():
@@ -194,6 +241,8 @@ def r3_sibling_constructions(ctx, rule):
     ok = True
     for q, fn, c in sites:
         kw = {k.arg: k.value for k in c.keywords}
+        al = _cursor_aliases(ctx.repo.modules[MCF], c)
+        kw = {k: expand(fn, _subst_names(v, al)) for k, v in kw.items()}
         args = {k: U(v) for k, v in kw.items()}
         tl = kw.get('target_level')
         tl = _inline_helper(ctx, tl) if tl is not None else None
